@@ -33,6 +33,23 @@ theorem probs_ok (a : SpMat) (labels : List Nat) (k : Nat)
   rw [this]
   exact probsRow_ok _ labels k (hw _ hmem) (hl _ hmem)
 
+/-- ★ `probs_[i][c]` = weight from node `i` to cluster `c`, divided by the out-weight of `i` (0 without out-weight) -/
+theorem probs_entry (a : SpMat) (labels : List Nat) (k : Nat)
+    (hw : ∀ row ∈ a, ∀ e ∈ row, 0 ≤ e.2) (hl : ∀ row ∈ a, ∀ e ∈ row, labels.getD e.1 k < k)
+    {i c : Nat} (hi : i < a.length) (hc : c < k) :
+    ((normalizeRows (dotMember a labels k)).getD i []).getD c 0 =
+      if rowWeight (a.getD i []) = 0 then 0
+      else classSum (a.getD i []) (fun e => labels.getD e.1 k) (·.2) c / rowWeight (a.getD i []) := by
+  have hmem : a.getD i [] ∈ a := by
+    rw [List.getD_eq_getElem?_getD, List.getElem?_eq_getElem hi, Option.getD_some]; exact List.getElem_mem hi
+  have : (normalizeRows (dotMember a labels k)).getD i [] =
+      normalizeRow (tab k (classSum (a.getD i []) (fun e => labels.getD e.1 k) (·.2))) := by
+    rw [normalizeRows_eq, ← dotMember_getD a labels k hi]
+    have hi' : i < (dotMember a labels k).length := by rw [dotMember_length]; exact hi
+    simp [List.getD_eq_getElem?_getD, hi']
+  rw [this]
+  exact probsRow_entry _ labels k (hw _ hmem) (hl _ hmem) hc
+
 /-! ### `aggregate_` -/
 
 theorem sumR_filter_map {α : Type} (l : List α) (q : α → Bool) (h : α → Rat) :
